@@ -244,6 +244,16 @@ func (g *gen) bytes() []byte {
 		b := make([]byte, 1000+r.Intn(3))
 		r.Read(b)
 		return b
+	case 7:
+		// sizes around the powers of two at which buffers are usually cut off
+		// (4 KiB, 8 KiB, 64 KiB) and beyond
+		n := []int{4095, 4096, 4097, 8191, 8192, 8193, 8195, 12000}[r.Intn(8)] + r.Intn(2)
+		if r.Intn(8) == 0 {
+			n = []int{65535, 65536, 65537, 70000}[r.Intn(4)]
+		}
+		b := make([]byte, n)
+		r.Read(b)
+		return b
 	default:
 		b := make([]byte, r.Intn(40))
 		r.Read(b)
